@@ -1046,13 +1046,33 @@ func c08Atomic(c *Ctx) {
 			}
 			return false
 		}) {
-			hasRet := false
-			for _, ret := range returnsOf(eb) {
-				if l.Body[ret.Block()] || l.Body[ret.Block().Preds[0]] {
-					hasRet = true
+			// inside the loop a branch on "element != nil" whose non-nil side can never reach the write (it returns, or
+			// leaves through an error exit), and the write lies behind the loop
+			aborts := false
+			for b := range l.Body {
+				iff, ok := b.Instrs[len(b.Instrs)-1].(*ssa.If)
+				if !ok {
+					continue
+				}
+				bo, ok := iff.Cond.(*ssa.BinOp)
+				if !ok || (bo.Op != token.NEQ && bo.Op != token.EQL) || !(isNilConst(bo.Y) || isNilConst(bo.X)) {
+					continue
+				}
+				nonNil := b.Succs[0]
+				if bo.Op == token.EQL {
+					nonNil = b.Succs[1]
+				}
+				elem := bo.X
+				if isNilConst(elem) {
+					elem = bo.Y
+				}
+				// the edge b→nonNil carries "element is not nil"; phis of nonNil fed by that edge inherit it
+				init := map[ssa.Value]vfact{elem: {nilness: 2}}
+				if !feasiblyReaches(nonNil, init, muts[0].Block()) {
+					aborts = true
 				}
 			}
-			if hasRet && l.Header.Dominates(muts[0].Block()) {
+			if aborts && l.Header.Dominates(muts[0].Block()) {
 				okScan = true
 			}
 		}
